@@ -1,6 +1,15 @@
 (* Props/C17.v — C17: whitespace, entity and attribute normalisation preserves meaning.
    Statements only; each is closed by [exact] of a lemma proved in Normalise/*Proofs.v. *)
-From Verif Require Import Common.Base Normalise.Model Normalise.Spec Normalise.EscProofs Normalise.EntProofs.
+From Verif Require Import Common.Base Normalise.Model Normalise.Spec Normalise.WsProofs Normalise.EscProofs Normalise.EntProofs.
+
+(* ReplaceMultipleWhitespace (the in-place j/k compaction with its three exit cases) neither panics nor
+   runs out of fuel and returns the unique o with [Collapse false b o]: b cut into maximal runs of
+   SP/TAB/LF/FF/CR and text bytes, every run replaced by LF if it contains LF or CR and by SP otherwise,
+   every text byte kept.  [collapse] is that o as a function.  All byte strings. *)
+Theorem ws_spec :
+  forall b, replace_multiple_ws b = Ok (collapse b) /\ Collapse false b (collapse b) /            (forall o, Collapse false b o -> o = collapse b).
+Proof. exact ws_spec_proof. Qed.
+Print Assumptions ws_spec.
 
 (* ReplaceEntities never lengthens its input (and neither panics nor loops), for every input and all
    entity maps in which no replacement is longer than a reference it can replace. *)
